@@ -226,6 +226,26 @@ var (
 	Seals      int
 )
 
+// MintNonces records the random part of the nonce of every token the library minted in this process (root tokens and
+// discharges); DupNonce is set when one repeats ("independently minted tokens never share a nonce", C01)
+var (
+	MintNonces = map[string]int{}
+	DupNonce   string
+	Mints      int
+)
+
+func noteNonce(m *macaroon.Macaroon) {
+	_, rnd, _, _ := macaroon.VerifNonceFields(m.Nonce)
+	Mints++
+	k := string(rnd)
+	if first, seen := MintNonces[k]; seen && DupNonce == "" {
+		DupNonce = fmt.Sprintf("token #%d minted in this process carries the same random nonce part %x as token #%d", Mints, rnd, first)
+	}
+	if _, seen := MintNonces[k]; !seen {
+		MintNonces[k] = Mints
+	}
+}
+
 func noteSeals(m *macaroon.Macaroon) {
 	for _, c := range m.UnsafeCaveats.Caveats {
 		c3, ok := c.(*macaroon.Caveat3P)
@@ -383,6 +403,7 @@ func (e *Env) Step(o Op) []int64 {
 			m.Nonce = macaroon.VerifNonce(kid, rnd, o.Proof, 0)
 			m.Tail = macaroon.VerifSign(e.Key(o.K), m.Nonce.MustEncode())
 		}
+		noteNonce(m)
 		e.Slots[o.S] = m
 		return nil
 	case "OAdd":
@@ -453,6 +474,7 @@ func (e *Env) Step(o Op) []int64 {
 		if err != nil {
 			return []int64{0}
 		}
+		noteNonce(dm)
 		err = dm.Add(cavs(o.Ds)...)
 		e.Slots[o.Dst] = dm
 		return []int64{1, b2i(err == nil)}
